@@ -35,7 +35,7 @@ SCALARS = [2.0, -1.0, 0.5, 1.5, 3.0, -2.0, 0.1, 0.0]
 FUNCS = {
     "double": (lambda x: x * 2, lambda x: x * 2),
     "neg_plus1": (lambda x: -x + 1, lambda x: -x + 1),
-    "square": (lambda x: x * x, lambda x: x * x),
+    "damp": (lambda x: x * 0.5 - 1, lambda x: x * 0.5 - 1),  # (no squaring: values must stay finite)
 }
 META_KEYS = ["k0", "k1", "k2"]
 MAX_FIELDS = 7
@@ -150,7 +150,7 @@ STEP = st.one_of(
     _fd("field_roundtrip", slot=slots, f=small),
     _fd("add_fields", slot=slots, names=st.lists(st.integers(0, len(NAME_POOL) - 1), min_size=1, max_size=3), form=st.sampled_from(["str", "list", "tuple"])),
     _fd("remove_fields", slot=slots, picks=st.lists(st.integers(0, 8), min_size=1, max_size=3), form=st.sampled_from(["str", "list", "tuple"])),
-    _fd("copy", slot=slots, dst=slots),
+    _fd("copy", slot=slots, dst=slots, meta_before=st.none() | st.lists(st.integers(0, 9), max_size=2), poke=st.integers(0, 2)),
     _fd("create", dst=slots, spec=create_spec()),
     _fd("meta_set", slot=slots, key=st.integers(0, len(META_KEYS) - 1), value=st.one_of(st.integers(0, 9), st.lists(st.integers(0, 9), max_size=2))),
     _fd("meta_append", slot=slots, key=st.integers(0, len(META_KEYS) - 1), x=st.integers(0, 9)),
@@ -684,6 +684,9 @@ class History:
     def op_copy(self, step):
         s, v, m = self.pick(step)
         Vector = _V()
+        if step.get("meta_before") is not None:
+            # give the source a nested mutable metadata value first ...
+            self.op_meta_set({"slot": step["slot"], "key": len(META_KEYS) - 1, "value": step["meta_before"]})
         c = self.must("v#%d.copy()" % s, v.copy)
         if not isinstance(c, Vector) or c is v:
             self.viol("v#%d.copy() returned %s" % (s, _short(c)))
@@ -696,6 +699,10 @@ class History:
             self.ctx.count("copy-starts-with-empty-metadata")
         d = self.place(step["dst"], [c, cm], avoid=s)
         self.classes.append("copy->#%d" % d)
+        if step.get("poke"):
+            # ... and mutate it in place on one side afterwards (skipped when there is no list value)
+            self.check_all("after copy")
+            self.op_meta_append({"slot": s if step["poke"] == 1 else d, "key": step["dst"], "x": 7})
 
     def op_create(self, step):
         v, m = self.create(step["spec"])
@@ -794,4 +801,4 @@ def search(ctx):
 
 
 def _search(ctx):
-    core.run_given(ctx, "histories", histories(30 if ctx.thorough else 15), lambda c: check(ctx, c), ctx.n(1000, 10000))
+    core.run_given(ctx, "histories", histories(30 if ctx.thorough else 15), lambda c: check(ctx, c), ctx.n(1000, 6000))
